@@ -2,11 +2,14 @@ package main
 
 import (
 	"fmt"
+	"math/rand"
 	"os"
 	"sync"
+	"sync/atomic"
 	"time"
 
 	"github.com/brutella/hc/accessory"
+	"github.com/brutella/hc/verifhook"
 
 	"verif/harness/app"
 	"verif/refctl"
@@ -25,17 +28,31 @@ import (
 //
 // The requests of one scenario are released together by a barrier after all connections are verified / pair-setup has
 // reached its last message; with a stagger of 0..600 ms between them in some scenarios (the second one lands in the
-// middle of the first announcement).
+// middle of the first announcement, or - with the storage reads of the accessory slowed down through the hook point
+// storage.get.done - between the moment the first handler has read the pairings and the moment it stores its conclusion).
 
 func simultaneous(r *vf.Run) {
-	n := r.Pick(12, 96)
+	n := r.Pick(64, 320)
+	// the accessory's reads of its storage take their time (0..40 ms each, drawn from a fixed sequence): a handler that
+	// has read the pairings is overtaken by the handler of a later change before it stores what it concluded
+	var reads int64
+	verifhook.Install(func(point string) {
+		if point == "storage.get.done" {
+			k := atomic.AddInt64(&reads, 1)
+			time.Sleep(time.Duration(rand.New(rand.NewSource(r.Seed*7919+k)).Intn(40)) * time.Millisecond)
+		}
+	})
+	defer func() {
+		verifhook.Install(func(string) {})
+		r.Count("simultaneous_storage_reads_delayed", int(atomic.LoadInt64(&reads)))
+	}()
 	type res struct {
 		name, sig, what string
 		wit             map[string]interface{}
 		incon           string
 	}
 	out := make(chan res, n)
-	sem := make(chan struct{}, 6)
+	sem := make(chan struct{}, 16)
 	var wg sync.WaitGroup
 	for i := 0; i < n; i++ {
 		wg.Add(1)
@@ -44,9 +61,12 @@ func simultaneous(r *vf.Run) {
 			defer wg.Done()
 			defer func() { <-sem }()
 			rnd := r.RandN("c20-simultaneous", i)
-			kind := []string{"cross-remove", "remove+pair", "remove-both"}[i%3]
-			stagger := time.Duration([]int{0, 0, 150, 400, 600}[(i/3)%5]) * time.Millisecond
-			rs := res{name: fmt.Sprintf("%s/stagger %v", kind, stagger)}
+			kind := []string{"cross-remove", "remove+pair", "cross-remove", "remove-both"}[i%4]
+			stagger := time.Duration([]int{0, 20, 60, 150, 400, 600}[(i/4)%6]) * time.Millisecond
+			if kind == "cross-remove" && i%8 != 0 {
+				stagger = time.Duration(rnd.Intn(80)) * time.Millisecond
+			}
+			rs := res{name: fmt.Sprintf("%s/stagger %v", kind, stagger.Round(50*time.Millisecond))}
 			defer func() { out <- rs }()
 			dir := app.ScratchDir(base, "simul")
 			defer os.RemoveAll(dir)
